@@ -1,5 +1,6 @@
 PROP = dict(level="model_checking", parts=[
-    cxx("ring", "C05_ring", ninja=CSG, shards=(16, 16), timeout=dict(quick=300, thorough=1500)),
+    cxx("ring", "C05_ring", ninja=CSG, shards=(12, 14), timeout=dict(quick=300, thorough=1500)),
+    py("model", "C05_model.py", ninja=CSG, make=["C05_ring"], shards=(4, 8), timeout=dict(quick=300, thorough=1700)),
 ])
 TEXT = dict(engine="vsched", design_ref="DESIGN.md §3 C05, Appendix A",
    technique="stateless model checking of the real code: exhaustive preemption-bounded DFS over thread schedules under a controlled scheduler (libc interposition), fork per execution",
